@@ -60,7 +60,12 @@ class RecOp(object):
 
 INITS = {'int': int, 'float': float, 'list': list, 'tuple': tuple, 'str': str, 'dict': dict,
          'odict': collections.OrderedDict, 'fset': frozenset}
-OPS = {'iadd': operator.iadd, 'add': operator.add, 'mul': operator.mul, 'union': frozenset.union}
+def last_odd(acc, v):
+    """an op that legitimately returns None for some steps (None is a value like any other for reduce)"""
+    return v if isinstance(v, int) and v % 2 else None
+
+
+OPS = {'iadd': operator.iadd, 'add': operator.add, 'mul': operator.mul, 'union': frozenset.union, 'lastodd': last_odd}
 
 
 def make_init(name):
@@ -99,7 +104,7 @@ def gen_elems(draw, etype, n):
 
 
 COMPAT = {
-    'int': (['int', 'float', 'count-int'], ['iadd', 'add', 'mul', 'rec']),
+    'int': (['int', 'float', 'count-int'], ['iadd', 'add', 'mul', 'rec', 'lastodd']),
     'float': (['float', 'int', 'count-float'], ['iadd', 'add', 'mul', 'rec']),
     'str': (['str'], ['iadd', 'add', 'rec']),
     'list': (['list', 'count-list'], ['iadd', 'add', 'rec']),
@@ -138,7 +143,8 @@ def gen(draw):
     return {'kind': kind, 'etype': etype, 'elems': gen_elems(draw, etype, n),
             'container': draw(st.sampled_from(['list', 'list', 'tuple', 'gen', 'set' if etype in ('int', 'str') else 'list'])),
             'init': init, 'op': op, 'levels': draw(st.integers(0, 3)),
-            'subspec': draw(st.sampled_from([None, None, 'key'])),
+            'subspec': draw(st.sampled_from([None, None, 'key', 'listspec', 'listspec'])),
+            'stop_at': draw(st.integers(0, 6)), 'skip_at': draw(st.integers(0, 6)),
             'repeat': draw(st.integers(2, 3)),
             'non_iterable': draw(st.sampled_from([True] + [False] * 14))}
 
@@ -159,9 +165,41 @@ def build_data(recipe):
     return data, src
 
 
+class ItemSpec(object):
+    """item spec of a one-element list sub-spec: passes items through, SKIPs the skip_at-th and STOPs at the stop_at-th"""
+    def __init__(self, stop_at, skip_at):
+        self.stop_at, self.skip_at, self.n = stop_at, skip_at, -1
+
+    def __call__(self, item):
+        self.n += 1
+        if self.n == self.stop_at:
+            return glom.STOP
+        if self.n == self.skip_at:
+            return glom.SKIP
+        return item
+
+    def __repr__(self):
+        return 'item(stop@%d, skip@%d)' % (self.stop_at, self.skip_at)
+
+
+def list_subspec(recipe):
+    return [ItemSpec(recipe.get('stop_at', 99), recipe.get('skip_at', 99))]
+
+
+def apply_listspec(recipe, items):
+    out = []
+    for n, x in enumerate(items):
+        if n == recipe.get('stop_at', 99):
+            break
+        if n == recipe.get('skip_at', 99):
+            continue
+        out.append(x)
+    return out
+
+
 def make_spec(recipe, init, op):
     kind = recipe['kind']
-    sub = T if recipe['subspec'] is None else T['k']
+    sub = T if recipe['subspec'] is None else (T['k'] if recipe['subspec'] == 'key' else list_subspec(recipe))
     if kind in ('fold', 'fold-union'):
         return Fold(sub, init=init, op=op)
     if kind == 'sum':
@@ -178,6 +216,8 @@ def make_spec(recipe, init, op):
 def reference(recipe, data, init, op):
     kind = recipe['kind']
     it = iter(data)
+    if recipe['subspec'] == 'listspec':
+        it = iter(apply_listspec(recipe, list(it)))       # iterate(glom(t, [item_spec])): SKIP omits, STOP truncates
     if kind in ('fold', 'fold-union', 'sum', 'flatten'):
         return functools.reduce(op, it, init())
     if kind == 'flatten-lazy':
@@ -210,7 +250,7 @@ def mutable_ids(v, acc=None, depth=3):
 
 def check(recipe, ctx):
     kind = recipe['kind']
-    ctx.label('kind-' + kind, 'etype-' + recipe['etype'], 'container-' + recipe['container'])
+    ctx.label('kind-' + kind, 'etype-' + recipe['etype'], 'container-' + recipe['container'], 'subspec-%s' % recipe['subspec'])
     if recipe['non_iterable']:
         ctx.label('non-iterable-target')
         for bad in (5, None, 2.5, object()):
@@ -219,9 +259,11 @@ def check(recipe, ctx):
                 spec = make_spec(recipe, init, make_op(recipe['op'] if recipe['op'] != 'update' else 'iadd'))
             except Exception:
                 return
-            target = bad if recipe['subspec'] is None else {'k': bad}
+            target = {'k': bad} if recipe['subspec'] == 'key' else bad
+            if recipe['subspec'] == 'listspec':
+                return
             try:
-                kw = {} if recipe['subspec'] is None else {'spec': T['k']}
+                kw = {} if recipe['subspec'] != 'key' else {'spec': T['k']}
                 if kind == 'flatten_fn':
                     r = flatten(target, levels=max(recipe['levels'], 1), **kw)
                 elif kind == 'merge_fn':
@@ -262,21 +304,27 @@ def check(recipe, ctx):
         except Exception as e:
             exp = ('err', e)
         # glom world
+        if recipe['subspec'] == 'listspec' and spec is not None:
+            spec = make_spec(recipe, g_init, g_op)       # the item spec counts items: a fresh one per evaluation
         data, src = build_data(recipe)
         snap = tg.snapshot(src)
-        target = data if recipe['subspec'] is None else {'k': data}
+        target = {'k': data} if recipe['subspec'] == 'key' else data
         calls_before = g_init.calls if isinstance(g_init, CountingInit) else None
         where = '%s spec=%r elems=%r container=%s evaluation #%d' % (kind, spec, src, recipe['container'], rep + 1)
         try:
             if kind == 'flatten_fn':
                 kw = {'levels': recipe['levels'], 'init': g_init}
-                if recipe['subspec'] is not None:
+                if recipe['subspec'] == 'key':
                     kw['spec'] = T['k']
+                elif recipe['subspec'] == 'listspec':
+                    kw['spec'] = list_subspec(recipe)
                 got = ('ok', flatten(target, **kw))
             elif kind == 'merge_fn':
                 kw = {'init': g_init}
-                if recipe['subspec'] is not None:
+                if recipe['subspec'] == 'key':
                     kw['spec'] = T['k']
+                elif recipe['subspec'] == 'listspec':
+                    kw['spec'] = list_subspec(recipe)
                 got = ('ok', merge(target, **kw))
             else:
                 got = ('ok', glom.glom(target, spec))
@@ -301,7 +349,7 @@ def check(recipe, ctx):
                            % (where, exp[1], type(got[1]).__name__, got[1]))
         e, g = exp[1], got[1]
         if kind == 'flatten_fn' and recipe['levels'] == 0:
-            if g is not target:
+            if g is not target and recipe['subspec'] != 'listspec':
                 raise Mismatch('levels-0', '%s: levels=0 must return the target itself' % where)
         else:
             if type(e) is not type(g) or e != g or (isinstance(e, dict) and list(e.items()) != list(g.items())):
@@ -320,7 +368,7 @@ def check(recipe, ctx):
                 raise Mismatch('init-calls', '%s: init() called %d times in this evaluation'
                                % (where, g_init.calls - calls_before))
         # recording op saw the elements in order
-        if isinstance(g_op, RecOp) and kind == 'fold':
+        if isinstance(g_op, RecOp) and kind == 'fold' and recipe['subspec'] != 'listspec':
             if g_op.calls[-len(src):] != [repr(x) for x in (list(data) if recipe['container'] == 'set' else src)] and src:
                 if recipe['container'] != 'set':
                     raise Mismatch('op-order', '%s: op saw %r' % (where, g_op.calls[-len(src):]))
